@@ -960,7 +960,7 @@ class TorControlProtocol(LineOnlyReceiver):
 
     def _is_end_line(self, line):
         "for FSM"
-        return line.strip() == '.'
+        return line == '.'
 
     def _is_not_end_line(self, line):
         "for FSM"
